@@ -645,8 +645,19 @@ def _run_resampling_actor(case: dict[str, Any], v: Verdict) -> None:
         info["counts_at_stop"] = list(counts)
         info["running_after"] = actor.is_running
         info["tasks_not_done"] = [t for t in actor.tasks if not t.done()]
+        # a stopped actor does not work any more: a request sent now must not be served
+        while True:
+            try:
+                await asyncio.wait_for(keep.receive(), timeout=1e-6)
+            except asyncio.TimeoutError:
+                break
+        await req_tx.send(ComponentMetricRequest("ns", 900, ComponentMetricId.ACTIVE_POWER, None))
         await asyncio.sleep(5.0)
         info["counts_later"] = list(counts)
+        try:
+            info["served_after_stop"] = await asyncio.wait_for(keep.receive(), timeout=1e-6)
+        except asyncio.TimeoutError:
+            info["served_after_stop"] = None
         for t in mine:
             t.cancel()
         await world.settle(3)
@@ -667,6 +678,9 @@ def _run_resampling_actor(case: dict[str, Any], v: Verdict) -> None:
     if info.get("counts_later") != info.get("counts_at_stop"):
         v.fail(f"samples kept arriving after stop() returned: {info.get('counts_at_stop')} -> {info.get('counts_later')} "
                f"in the following 5 s (a task spawned by the actor is still running)")
+    if info.get("served_after_stop") is not None:
+        v.fail(f"a subscription request sent after stop() returned was still served (forwarded to the data source: "
+               f"{info['served_after_stop']}): a task spawned by the actor is still running")
     if info.get("leftover"):
         # the Resampler's per-series receive tasks outlive the actor (it never stops its Resampler); they are idle
         # and not in the actor's task set, so the statement does not clearly cover them: recorded, not judged
